@@ -26,6 +26,7 @@ def check(ctx):
     once.mps(ctx)
     once.sv(ctx)
     adapter.grid(ctx)
+    adapter.unique_observable_times(ctx)
     adapter.timeeq(ctx)
     ctx.floor("ONCE", 8)
     ctx.floor("TIMEEQ", 2)
